@@ -1116,6 +1116,13 @@ func TestVF_C17(t *testing.T) {
 	res.Assume("emissions at one virtual instant form one flight transmission; delivery instants are placed off the retransmission grid")
 	var cases []vfC17Case
 	vs := vfC02Variants()
+	{
+		// a dual-stack client whose DTLS 1.2 server answers with its ServerHello flight at once (no cookie exchange),
+		// in several datagrams: the client enters the 1.2 state machine with the ClientHello it has already sent
+		c := vfBaseCfg(vfSuiteInfo{Name: "default", Auth: "ecdsa"}, "ecdsa")
+		c.CVer, c.SVer, c.HelloVerify, c.MTU = "dual", "12", false, 200
+		vs = append(vs, vfVariant{Name: "dualstack-client-12server-nohv-mtu200", Cfg: c})
+	}
 	ivs := []time.Duration{time.Second, 100 * time.Millisecond, 3 * time.Second}
 	maxCut := vfPick(7, 12)
 	for vi, v := range vs {
